@@ -69,7 +69,10 @@ SockProfiles ==
      S(TRUE, <<B("trunc", 30)>>, <<B("answer", 30)>>),
      S(TRUE, <<B("answer", 30)>>, <<>>),
      S(FALSE, <<B("nx", 30)>>, <<>>),
-     S(TRUE, <<B("timeout", 0)>>, <<>>)}
+     S(TRUE, <<B("timeout", 0)>>, <<>>),
+     \* the local stack refuses to send the datagram (no route, unreachable); the receive fails
+     S(TRUE, <<B("sendfail", 0)>>, <<>>),
+     S(TRUE, <<B("recvfail", 30)>>, <<>>)}
 MC_Sock == {C(300, n, "user", <<a, b>>) : n \in {1, 2}, a \in SockProfiles, b \in SockProfiles}
            \cup {C(300, 1, "user", <<a>>) : a \in SockProfiles}
 
